@@ -27,7 +27,7 @@ RULE = ('every call of rotation_matrix, enu2xyz, xyz2enu, vcv_cart2local, vcv_lo
         'shard enumerates 18 latitudes x 65 longitudes (poles, equator, signed zero, every 15 deg, neighbours of the '
         'cardinal meridians), every integer dof -5..200, and runs the repository\'s own tests of these functions under the '
         'monitors.  non-trivial = input inside the quantified domain (others are '
-        'counted, not judged); distinct = (function, matrix/vector class, |lat| band, pole flag, cardinal-meridian flag)')
+        'counted, not judged); every returned object that holds an array is kept with a copy and compared again after later calls (results are values: `earlier-result-changed-by-later-call`).  distinct = (function, matrix/vector class, |lat| band, pole flag, cardinal-meridian flag)')
 ASSUMPTIONS = ['numpy.linalg.eigh / scipy.stats.t.ppf, validated each shard against 40-digit mpmath closed forms',
                'tolerances are backward-error sized: 1e-14 absolute for the rotation matrix, 1e-12 relative to |v| for vectors, '
                '1e-12 * trace (largest eigenvalue for the ellipse) in variance units for covariances; orientation compared '
@@ -38,7 +38,7 @@ ASSUMPTIONS = ['numpy.linalg.eigh / scipy.stats.t.ppf, validated each shard agai
                'the up component is judged as sqrt of the up variance of the same matrix',
                'k_val95 above 120 dof: the documented constant 1.96; below 1: the value returned for 1',
                'angle-object arguments are read by the angle_exact oracle, not by the library']
-REQUIRED_COUNTERS = [
+REQUIRED_COUNTERS = ['kept_results_compared_after_later_calls', 
     'rot_orthonormal', 'rot_right_handed', 'rot_up_is_normal', 'rot_east_north', 'rot_at_pole', 'rot_at_cardinal_meridian',
     'vec_oracle', 'vec_length', 'vec_inverse_pair', 'vec_angle_object_args', 'vec_1e7',
     'vcv_oracle', 'vcv_symmetry', 'vcv_trace', 'vcv_eigenvalues', 'vcv_round_trip', 'vcv_column', 'vcv_singular_inputs',
@@ -700,6 +700,10 @@ class Driver:
 
     def call(self, f, *a):
         """Call a monitored library function; its monitor judges result or exception."""
+        keeper = getattr(self, 'keeper', None)
+        if keeper is None:
+            keeper = self.keeper = core.ResultKeeper(self.M.ctx, getattr(f, '__name__', 'call'))
+        keeper.verify()
         try:
             r = f(*a)
         except core.Inconclusive:
@@ -707,6 +711,11 @@ class Driver:
         except Exception:
             r = None
         self.M.check_harness()
+        # results are values: a matrix handed out earlier must not change when another position is worked on
+        keeper.verify()
+        if r is not None:
+            keeper.keep(r, dict(self.M.case or {}, note='value kept from an earlier call of the sequence'),
+                        label=getattr(getattr(f, '__wrapped__', f), '__name__', 'call'))
         return r
 
     def begin(self, case, *label):
